@@ -392,7 +392,7 @@ def run_variant(obs, binary, jobs, seed, label, timeout=1200):
     def one(env):
         e = dict(env)
         e.setdefault('VP_SEED', seed)
-        return run_monitor(o2, binary, e, tag=label, sanitizer_env=False, timeout=timeout, cpu_limit=max(120, timeout // 4))
+        return run_monitor(o2, binary, e, tag=label, sanitizer_env=False, timeout=timeout, cpu_limit=300 if os.environ.get('VERIF_TIER_EFFECTIVE', 'quick') == 'quick' else 6000)
     run_parallel(one, jobs)
     for k, x in o2.viol.items():
         obs.add_viol('%s[built-%s]' % (k, label), x['details'][0] if x['details'] else None, count=x['count'], source=x.get('source'))
